@@ -62,22 +62,6 @@ Proof.
       rewrite ?add_remotes_length, ?repeat_length, ?map_length, ?seq_length; assumption.
 Qed.
 
-(* ---- the early exit of the second loop is invisible when no empty tier is followed by a non-empty one *)
-Definition no_gap (ls : list (list host)) : Prop :=
-  forall i j, (i < j)%nat -> nth i ls [] = [] -> nth j ls [] = [].
-
-Lemma p2_seq_no_gap ls : no_gap ls -> p2_seq ls = concat ls.
-Proof.
-  induction ls as [|l ls IH]; intros Hg; [reflexivity|]. destruct l as [|h l].
-  - simpl. assert (Hall : forall x, In x ls -> x = []).
-    { intros x Hx. apply In_nth with (d := []) in Hx. destruct Hx as [j [Hj <-]].
-      apply (Hg 0%nat (S j)); [lia | reflexivity]. }
-    clear -Hall. induction ls as [|x ls IH]; [reflexivity|]. simpl. rewrite (Hall x (or_introl eq_refl)). simpl.
-    apply IH. intros y Hy. apply Hall. right. assumption.
-  - change (p2_seq ((h :: l) :: ls)) with ((h :: l) ++ p2_seq ls). simpl. rewrite IH; [reflexivity|].
-    intros i j Hij Hi. apply (Hg (S i) (S j)); [lia | assumption].
-Qed.
-
 (* ---- `used` filtering --------------------------------------------------------------------------------- *)
 Lemma zmem_In x l : zmem x l = true <-> In x l.
 Proof.
@@ -109,41 +93,77 @@ Qed.
 Lemma seq_S_map n m : seq (S n) m = map S (seq n m).
 Proof. symmetry. apply seq_shift. Qed.
 
-(* ---- the theorem: model sequence = specification ----------------------------------------------------- *)
+(* ---- the theorem: model sequence = specification, for all inputs ------------------------------------ *)
+Lemma first_occurrences_dedup l : forall seen, first_occurrences seen l = dedup_seq seen l.
+Proof.
+  induction l as [|h l IH]; intros seen; simpl; [reflexivity|]. unfold zmem.
+  destruct (existsb (Z.eqb (hid h)) seen); rewrite IH; reflexivity.
+Qed.
+
 Lemma ta_seq_spec nlrf up p rs :
-  NoDup (map hid (concat (plists p))) ->
-  (nlrf = true -> no_gap (far_tiers (pk p) rs)) ->
   ta_seq nlrf up p rs =
   spec_ta up (host_tier (pk p)) (max_tier (pk p)) nlrf rs (plists p) (Z.to_nat (pctr p + 2)).
 Proof.
-  intros Hn Hg. unfold ta_seq, spec_ta.
-  assert (Ea : near (pk p) up rs = ups up (in_tier (host_tier (pk p)) 0 rs)) by reflexivity.
-  assert (Eb : far (pk p) nlrf up rs =
-               if nlrf then concat (map (fun t => ups up (in_tier (host_tier (pk p)) t rs)) (seq 1 (max_tier (pk p)))) else []).
-  { unfold far. destruct nlrf; [|reflexivity]. rewrite add_remotes_tiers, (p2_seq_no_gap _ (Hg eq_refl)).
-    unfold far_tiers. rewrite ups_concat, map_map, seq_S_map, map_map. reflexivity. }
-  rewrite <- Ea, <- Eb. f_equal. f_equal.
-  rewrite dedup_seq_filter by (apply spec_rr_no_host_twice; assumption).
-  apply filter_ext. intros h. f_equal. apply bool_eq_iff.
-  rewrite zmem_In, hmem_In, map_app, !in_app_iff, <- !in_rev. tauto.
+  unfold ta_seq, spec_ta. change (@first_occurrences) with dedup_seq. apply f_equal.
+  apply f_equal2; [reflexivity|]. apply f_equal2; [|reflexivity].
+  unfold far. destruct nlrf; [|reflexivity]. rewrite add_remotes_tiers.
+  unfold far_tiers. rewrite ups_concat, map_map, seq_S_map, map_map. reflexivity.
 Qed.
 
-(* a filtered list keeps the order of the list it was filtered from *)
-Lemma filter_tier_sorted (tier : host -> nat) (f : host -> bool) L :
-  tier_sorted tier L -> tier_sorted tier (filter f L).
+(* ---- first occurrences ------------------------------------------------------------------------------- *)
+Lemma In_dedup_seq l : forall used h, In h (dedup_seq used l) -> In h l /\ zmem (hid h) used = false.
 Proof.
-  induction L as [|x L IH]; intros Hs i j a b Hij Ha Hb.
+  induction l as [|x l IH]; intros used h H; simpl in H; [tauto|].
+  destruct (zmem (hid x) used) eqn:E.
+  - apply IH in H. simpl. tauto.
+  - destruct H as [->|H]; [simpl; auto|]. apply IH in H. destruct H as [H1 H2]. split; [simpl; auto|].
+    unfold zmem in *. simpl in H2. apply orb_false_iff in H2. tauto.
+Qed.
+
+Lemma dedup_seq_nodup l : forall used, NoDup (map hid (dedup_seq used l)).
+Proof.
+  induction l as [|x l IH]; intros used; simpl; [constructor|].
+  destruct (zmem (hid x) used) eqn:E; [apply IH|]. simpl. constructor; [|apply IH].
+  intros Hin. apply in_map_iff in Hin. destruct Hin as [y [Ey Hy]]. apply In_dedup_seq in Hy. destruct Hy as [_ Hy].
+  unfold zmem in Hy. simpl in Hy. rewrite Ey, Z.eqb_refl in Hy. discriminate.
+Qed.
+
+Lemma dedup_seq_complete l : forall used h, In h l -> zmem (hid h) used = false -> In (hid h) (map hid (dedup_seq used l)).
+Proof.
+  induction l as [|x l IH]; intros used h Hin Hm; simpl in *; [tauto|].
+  destruct (zmem (hid x) used) eqn:E.
+  - destruct Hin as [->|Hin]; [congruence | apply IH; assumption].
+  - simpl. destruct (Z.eq_dec (hid x) (hid h)) as [Ex|Ex]; [left; assumption|]. right.
+    destruct Hin as [->|Hin]; [congruence|]. apply IH; [assumption|]. unfold zmem in *. simpl.
+    destruct (Z.eqb_spec (hid h) (hid x)); [congruence | assumption].
+Qed.
+
+(* on a list without repetitions, and nothing seen, nothing is dropped *)
+Lemma dedup_seq_id l : forall used, NoDup (map hid l) -> (forall h, In h l -> zmem (hid h) used = false) -> dedup_seq used l = l.
+Proof.
+  induction l as [|x l IH]; intros used Hn Hu; cbn [dedup_seq]; [reflexivity|]. inversion Hn as [|? ? Hx Hn']; subst.
+  rewrite (Hu x (or_introl eq_refl)). f_equal. apply IH; [assumption|]. intros h Hh. pose proof (Hu h (or_intror Hh)) as Hm. unfold zmem in *. simpl.
+  rewrite Hm. destruct (Z.eqb_spec (hid h) (hid x)) as [E|E]; [|reflexivity].
+  exfalso. apply Hx. rewrite <- E. apply in_map. assumption.
+Qed.
+
+Lemma dedup_tier_sorted (tier : host -> nat) L : forall used, tier_sorted tier L -> tier_sorted tier (dedup_seq used L).
+Proof.
+  induction L as [|x L IH]; intros used Hs i j a b Hij Ha Hb.
   - destruct i; discriminate.
   - assert (HsL : tier_sorted tier L).
     { intros i' j' a' b' H1 H2 H3. apply (Hs (S i') (S j') a' b'); [lia | exact H2 | exact H3]. }
-    simpl in Ha, Hb. destruct (f x) eqn:Ef.
+    simpl in Ha, Hb. destruct (zmem (hid x) used) eqn:Ef.
+    + apply (IH used HsL i j a b); assumption.
     + destruct i as [|i]; destruct j as [|j]; try lia.
       * simpl in Ha, Hb. inversion Ha; subst.
-        assert (Hin : In b L) by (apply nth_error_In in Hb; apply filter_In in Hb; tauto).
+        assert (Hin : In b L) by (apply nth_error_In in Hb; apply In_dedup_seq in Hb; tauto).
         apply In_nth_error in Hin. destruct Hin as [m Hm]. apply (Hs 0%nat (S m) a b); [lia | reflexivity | exact Hm].
-      * simpl in Ha, Hb. apply (IH HsL i j a b); [lia | assumption | assumption].
-    + apply (IH HsL i j a b); assumption.
+      * simpl in Ha, Hb. apply (IH (hid x :: used) HsL i j a b); [lia | assumption | assumption].
 Qed.
+
+Lemma zmem_used_after used l x : zmem x (used_after used l) = true <-> zmem x used = true \/ In x (map hid (dedup_seq used l)).
+Proof. unfold used_after. rewrite !zmem_In, in_app_iff, <- in_rev. tauto. Qed.
 
 (* ---- what the specification's list satisfies ------------------------------------------------------- *)
 Section SpecTa.
@@ -166,13 +186,20 @@ Section SpecTa.
       + apply In_ups. split; [apply In_in_tier; tauto | assumption].
   Qed.
 
+  Lemma spec_ta_unfold : spec_ta up tier maxt nlrf reps tiers start = dedup_seq [] (nearL ++ farL ++ spec_rr up tiers start).
+  Proof. unfold spec_ta. apply first_occurrences_dedup. Qed.
+
   Lemma spec_ta_only_up : only_up up (spec_ta up tier maxt nlrf reps tiers start).
   Proof.
-    intros h H. unfold spec_ta in H. fold nearL farL in H. rewrite !in_app_iff in H. destruct H as [H|[H|H]].
+    intros h H. rewrite spec_ta_unfold in H. apply In_dedup_seq in H. destruct H as [H _].
+    rewrite !in_app_iff in H. destruct H as [H|[H|H]].
     - apply In_ups in H. tauto.
     - apply In_farL in H. tauto.
-    - apply filter_In in H. destruct H as [H _]. apply In_spec_rr in H. tauto.
+    - apply In_spec_rr in H. tauto.
   Qed.
+
+  Lemma spec_ta_no_host_twice : no_host_twice (spec_ta up tier maxt nlrf reps tiers start).
+  Proof. unfold no_host_twice. rewrite spec_ta_unfold. apply dedup_seq_nodup. Qed.
 
   (* every up host of the tier lists is offered, and every up replica the policy is to try first *)
   Lemma spec_ta_complete :
@@ -181,24 +208,44 @@ Section SpecTa.
     (nlrf = true -> (forall h, In h reps -> (tier h <= maxt)%nat) ->
      complete up reps (spec_ta up tier maxt nlrf reps tiers start)).
   Proof.
-    unfold spec_ta. fold nearL farL. split; [|split].
-    - intros h Hh Hu. rewrite !map_app, !in_app_iff.
-      destruct (hmem h (nearL ++ farL)) eqn:E.
-      + apply hmem_In in E. rewrite map_app, in_app_iff in E. tauto.
-      + right. right. apply in_map. apply filter_In. split; [apply In_spec_rr; tauto | rewrite E; reflexivity].
-    - intros h Hh Hu. rewrite !map_app, !in_app_iff. left. apply in_map. apply In_ups. tauto.
-    - intros Hn Hb h Hh Hu. rewrite !map_app, !in_app_iff.
+    rewrite spec_ta_unfold. split; [|split].
+    - intros h Hh Hu. apply dedup_seq_complete; [|reflexivity]. rewrite !in_app_iff. right. right. apply In_spec_rr. tauto.
+    - intros h Hh Hu. apply dedup_seq_complete; [|reflexivity]. rewrite !in_app_iff. left. apply In_ups. tauto.
+    - intros Hn Hb h Hh Hu. apply dedup_seq_complete; [|reflexivity]. rewrite !in_app_iff.
       destruct (tier h) as [|t] eqn:Et.
-      + left. apply in_map. apply In_ups. split; [apply In_in_tier; tauto | assumption].
-      + right. left. apply in_map. apply In_farL. pose proof (Hb h Hh). intuition lia.
+      + left. apply In_ups. split; [apply In_in_tier; tauto | assumption].
+      + right. left. apply In_farL. pose proof (Hb h Hh). intuition lia.
   Qed.
 
-  (* no host twice, given that the replica list and the tier lists name no host twice *)
-  Lemma spec_ta_no_host_twice :
-    NoDup (map hid reps) -> NoDup (map hid (concat tiers)) ->
-    no_host_twice (spec_ta up tier maxt nlrf reps tiers start).
+  Lemma farL_tier_sorted : tier_sorted tier farL.
   Proof.
-    intros Hr Ht. unfold no_host_twice, spec_ta. fold nearL farL.
+    unfold farL. destruct nlrf; [|intros i j a b _ Ha; destruct i; discriminate].
+    intros i j a b Hij Ha Hb.
+    destruct (concat_positions _ i j a b Hij Ha Hb) as [ti [tj [la [lb [H1 [H2 [H3 [H4 H5]]]]]]]].
+    rewrite nth_error_map in H2, H3.
+    destruct (nth_error (seq 1 maxt) ti) as [ta|] eqn:Ea; [|discriminate].
+    destruct (nth_error (seq 1 maxt) tj) as [tb|] eqn:Eb; [|discriminate].
+    inversion H2; inversion H3; subst.
+    apply In_ups in H4. destruct H4 as [H4 _]. apply In_in_tier in H4.
+    apply In_ups in H5. destruct H5 as [H5 _]. apply In_in_tier in H5.
+    assert (Hta : ta = (1 + ti)%nat).
+    { assert (Hl : (ti < length (seq 1 maxt))%nat) by (apply nth_error_Some; congruence). rewrite seq_length in Hl.
+      apply nth_error_nth with (d := 0%nat) in Ea. rewrite seq_nth in Ea by assumption. lia. }
+    assert (Htb : tb = (1 + tj)%nat).
+    { assert (Hl : (tj < length (seq 1 maxt))%nat) by (apply nth_error_Some; congruence). rewrite seq_length in Hl.
+      apply nth_error_nth with (d := 0%nat) in Eb. rewrite seq_nth in Eb by assumption. lia. }
+    lia.
+  Qed.
+
+  (* the ids of near ++ far are distinct when the replica list names no host twice *)
+  Lemma near_far_nodup : NoDup (map hid reps) -> NoDup (map hid (nearL ++ farL)).
+  Proof.
+    intros Hr.
+    assert (Hinj : forall x y, In x reps -> In y reps -> hid x = hid y -> x = y).
+    { clear -Hr. revert Hr. generalize reps as L. induction L as [|z L IHL]; simpl; intros Hn x y Hx Hy E; [tauto|].
+      inversion Hn as [|? ? Hz Hn']; subst. destruct Hx as [->|Hx], Hy as [->|Hy]; auto.
+      - exfalso. apply Hz. rewrite E. apply in_map. assumption.
+      - exfalso. apply Hz. rewrite <- E. apply in_map. assumption. }
     assert (Hnear : NoDup (map hid nearL)) by (unfold nearL, ups, in_tier; do 2 apply NoDup_map_filter; assumption).
     assert (Hfar : NoDup (map hid farL)).
     { unfold farL. destruct nlrf; [|constructor]. generalize 1%nat as a. induction maxt as [|m IH]; intros a; simpl; [constructor|].
@@ -206,62 +253,57 @@ Section SpecTa.
       intros x y Hx Hy E. apply In_ups in Hx. destruct Hx as [Hx _]. apply In_in_tier in Hx.
       apply in_concat in Hy. destruct Hy as [l [Hl Hy]]. apply in_map_iff in Hl. destruct Hl as [t [<- Hts]].
       apply in_seq in Hts. apply In_ups in Hy. destruct Hy as [Hy _]. apply In_in_tier in Hy.
-      assert (x = y); [|subst; lia].
-      clear -Hr Hx Hy E. destruct Hx as [Hx _]. destruct Hy as [Hy _]. revert Hr Hx Hy E. generalize reps as L.
-      induction L as [|z L IHL]; simpl; intros Hn Hx Hy E; [tauto|]. inversion Hn as [|? ? Hz Hn']; subst.
-      destruct Hx as [->|Hx], Hy as [->|Hy]; auto.
-      - exfalso. apply Hz. rewrite E. apply in_map. assumption.
-      - exfalso. apply Hz. rewrite <- E. apply in_map. assumption. }
-    assert (Hnf : NoDup (map hid (nearL ++ farL))).
-    { apply NoDup_map_app. split; [assumption|]. split; [assumption|].
-      intros x y Hx Hy E. apply In_ups in Hx. destruct Hx as [Hx _]. apply In_in_tier in Hx.
-      apply In_farL in Hy. destruct Hy as [_ [Hy [_ Hty]]].
-      assert (x = y); [|subst; lia].
-      destruct Hx as [Hx _]. clear -Hr Hx Hy E. revert Hr Hx Hy E. generalize reps as L.
-      induction L as [|z L IHL]; simpl; intros Hn Hx Hy E; [tauto|]. inversion Hn as [|? ? Hz Hn']; subst.
-      destruct Hx as [->|Hx], Hy as [->|Hy]; auto.
-      - exfalso. apply Hz. rewrite E. apply in_map. assumption.
-      - exfalso. apply Hz. rewrite <- E. apply in_map. assumption. }
-    rewrite app_assoc. apply NoDup_map_app. split; [assumption|]. split.
-    - apply NoDup_map_filter. apply spec_rr_no_host_twice. assumption.
-    - intros x y Hx Hy E. apply filter_In in Hy. destruct Hy as [_ Hy].
-      apply negb_true_iff in Hy. assert (hmem y (nearL ++ farL) = true); [|congruence].
-      apply hmem_In. rewrite <- E. apply in_map. assumption.
+      assert (x = y) by (apply Hinj; tauto). subst. lia. }
+    apply NoDup_map_app. split; [assumption|]. split; [assumption|].
+    intros x y Hx Hy E. apply In_ups in Hx. destruct Hx as [Hx _]. apply In_in_tier in Hx.
+    apply In_farL in Hy. destruct Hy as [_ [Hy [_ Hty]]].
+    assert (x = y) by (apply Hinj; tauto). subst. lia.
   Qed.
 
-  (* replicas first, nearest first; then the other hosts by tier *)
+  (* replicas first, nearest first; then the other hosts by tier; with a duplicate-free replica list the
+     replica parts are exactly the up replicas in replica order *)
   Lemma spec_ta_order : tiers_consistent tier tiers ->
-    exists rest,
-      spec_ta up tier maxt nlrf reps tiers start = nearL ++ farL ++ rest
-      /\ (forall h, In h nearL -> In h reps /\ tier h = 0%nat)
-      /\ (forall h, In h farL -> In h reps /\ (1 <= tier h)%nat)
-      /\ tier_sorted tier farL
+    exists nearP farP rest,
+      spec_ta up tier maxt nlrf reps tiers start = nearP ++ farP ++ rest
+      /\ (forall h, In h nearP -> In h reps /\ tier h = 0%nat)
+      /\ (forall h, In h farP -> In h reps /\ (1 <= tier h)%nat)
+      /\ tier_sorted tier farP
       /\ tier_sorted tier rest
-      /\ (forall h, In h rest -> ~ In (hid h) (map hid (nearL ++ farL))).
+      /\ (forall h, In h rest -> ~ In (hid h) (map hid (nearP ++ farP)))
+      /\ (NoDup (map hid reps) -> nearP = nearL /\ farP = farL).
   Proof.
-    intros Hc. eexists. split; [reflexivity|]. split; [|split; [|split; [|split]]].
-    - intros h Hh. apply In_ups in Hh. destruct Hh as [Hh _]. apply In_in_tier in Hh. assumption.
-    - intros h Hh. apply In_farL in Hh. intuition lia.
-    - unfold farL. destruct nlrf; [|intros i j a b _ Ha; destruct i; discriminate].
-      intros i j a b Hij Ha Hb.
-      destruct (concat_positions _ i j a b Hij Ha Hb) as [ti [tj [la [lb [H1 [H2 [H3 [H4 H5]]]]]]]].
-      rewrite nth_error_map in H2, H3.
-      destruct (nth_error (seq 1 maxt) ti) as [ta|] eqn:Ea; [|discriminate].
-      destruct (nth_error (seq 1 maxt) tj) as [tb|] eqn:Eb; [|discriminate].
-      inversion H2; inversion H3; subst.
-      apply In_ups in H4. destruct H4 as [H4 _]. apply In_in_tier in H4.
-      apply In_ups in H5. destruct H5 as [H5 _]. apply In_in_tier in H5.
-      assert (Hta : ta = (1 + ti)%nat).
-      { assert (Hl : (ti < length (seq 1 maxt))%nat) by (apply nth_error_Some; congruence). rewrite seq_length in Hl.
-        apply nth_error_nth with (d := 0%nat) in Ea. rewrite seq_nth in Ea by assumption. lia. }
-      assert (Htb : tb = (1 + tj)%nat).
-      { assert (Hl : (tj < length (seq 1 maxt))%nat) by (apply nth_error_Some; congruence). rewrite seq_length in Hl.
-        apply nth_error_nth with (d := 0%nat) in Eb. rewrite seq_nth in Eb by assumption. lia. }
-      lia.
-    - intros i j a b Hij Ha Hb.
-      apply (filter_tier_sorted tier _ _ (spec_rr_tier_sorted up tier tiers start Hc) i j a b Hij Ha Hb).
-    - intros h Hh. apply filter_In in Hh. destruct Hh as [_ Hh]. apply negb_true_iff in Hh.
-      intros Hin. apply hmem_In in Hin. exact (eq_true_false_abs _ Hin Hh).
+    intros Hc. rewrite spec_ta_unfold, dedup_seq_app, dedup_seq_app.
+    set (u1 := used_after [] nearL). set (u2 := used_after u1 farL).
+    exists (dedup_seq [] nearL), (dedup_seq u1 farL), (dedup_seq u2 (spec_rr up tiers start)).
+    split; [reflexivity|]. split; [|split; [|split; [|split; [|split]]]].
+    - intros h Hh. apply In_dedup_seq in Hh. destruct Hh as [Hh _]. apply In_ups in Hh. destruct Hh as [Hh _].
+      apply In_in_tier in Hh. assumption.
+    - intros h Hh. apply In_dedup_seq in Hh. destruct Hh as [Hh _]. apply In_farL in Hh. intuition lia.
+    - apply dedup_tier_sorted. apply farL_tier_sorted.
+    - apply dedup_tier_sorted. apply spec_rr_tier_sorted. assumption.
+    - intros h Hh Hin. apply In_dedup_seq in Hh. destruct Hh as [_ Hh].
+      assert (Hz : zmem (hid h) u2 = true); [|congruence].
+      unfold u2. apply zmem_used_after. rewrite map_app, in_app_iff in Hin. destruct Hin as [Hin|Hin]; [left|right; assumption].
+      unfold u1. apply zmem_used_after. right. assumption.
+    - intros Hn. pose proof (near_far_nodup Hn) as Hnf. apply NoDup_map_app in Hnf. destruct Hnf as [N1 [N2 N3]].
+      assert (E1 : dedup_seq [] nearL = nearL) by (apply dedup_seq_id; [assumption | reflexivity]).
+      split; [exact E1|]. apply dedup_seq_id; [assumption|]. intros h Hh.
+      destruct (zmem (hid h) u1) eqn:Ez; [|reflexivity]. exfalso. unfold u1 in Ez. apply zmem_used_after in Ez.
+      destruct Ez as [Ez|Ez]; [discriminate|]. rewrite E1 in Ez. apply in_map_iff in Ez. destruct Ez as [x [Ex Hx]].
+      apply (N3 x h Hx Hh Ex).
+  Qed.
+
+  (* with duplicate-free inputs the list is the plain concatenation with the already offered hosts filtered out *)
+  Lemma spec_ta_nodup_form : NoDup (map hid reps) -> NoDup (map hid (concat tiers)) ->
+    spec_ta up tier maxt nlrf reps tiers start =
+    nearL ++ farL ++ filter (fun h => negb (hmem h (nearL ++ farL))) (spec_rr up tiers start).
+  Proof.
+    intros Hr Ht. rewrite spec_ta_unfold, app_assoc, dedup_seq_app.
+    pose proof (near_far_nodup Hr) as Hnf.
+    rewrite (dedup_seq_id (nearL ++ farL) [] Hnf) by reflexivity. rewrite <- app_assoc. f_equal. f_equal.
+    rewrite dedup_seq_filter by (apply spec_rr_no_host_twice; assumption).
+    apply filter_ext. intros h. f_equal. apply bool_eq_iff. rewrite zmem_used_after, hmem_In.
+    rewrite (dedup_seq_id (nearL ++ farL) [] Hnf) by reflexivity. split; [intros [H|H]; [discriminate | assumption] | auto].
   Qed.
 End SpecTa.
 
@@ -275,17 +317,22 @@ Proof.
   - etransitivity; eassumption.
 Qed.
 
-Lemma shuffle_lemma up tier maxt nlrf rs rs' tiers start : Permutation rs' rs ->
+Lemma shuffle_lemma up tier maxt nlrf rs rs' tiers start :
+  NoDup (map hid rs) -> NoDup (map hid (concat tiers)) -> Permutation rs' rs ->
   exists near near' far far' rest,
     spec_ta up tier maxt nlrf rs tiers start = near ++ far ++ rest /\
     spec_ta up tier maxt nlrf rs' tiers start = near' ++ far' ++ rest /\
     near = ups up (in_tier tier 0 rs) /\ Permutation near' near /\ Permutation far' far.
 Proof.
-  intros Hp. unfold spec_ta.
+  intros Hn Ht Hp.
+  assert (Hn' : NoDup (map hid rs')).
+  { eapply Permutation_NoDup; [|exact Hn]. apply Permutation_map. symmetry. assumption. }
+  rewrite (spec_ta_nodup_form up tier maxt nlrf rs tiers start Hn Ht).
+  rewrite (spec_ta_nodup_form up tier maxt nlrf rs' tiers start Hn' Ht).
   set (near := ups up (in_tier tier 0 rs)). set (near' := ups up (in_tier tier 0 rs')).
   set (far := if nlrf then concat (map (fun t => ups up (in_tier tier t rs)) (seq 1 maxt)) else []).
   set (far' := if nlrf then concat (map (fun t => ups up (in_tier tier t rs')) (seq 1 maxt)) else []).
-  assert (Hn : Permutation near' near) by (unfold near, near', ups, in_tier; do 2 apply perm_filter; assumption).
+  assert (Hpn : Permutation near' near) by (unfold near, near', ups, in_tier; do 2 apply perm_filter; assumption).
   assert (Hf : Permutation far' far).
   { unfold far, far'. destruct nlrf; [|reflexivity]. induction (seq 1 maxt) as [|t ts IH]; simpl; [reflexivity|].
     apply Permutation_app; [|exact IH]. unfold ups, in_tier. do 2 apply perm_filter. assumption. }
